@@ -22,6 +22,9 @@ def cases(tier, seed):
     out = []
     for sc, c in common.add_algs(bat, lambda c: common.batch_algs(c, lvl)):
         out.append((sc, c))
+    for sc, c in common.add_algs(common.wide_scope(lvl), lambda c: [
+            a for a in common.wide_algs(c, lvl) if a["kind"] == "batch"]):
+        out.append((sc, c))
     for sc, c in bat[::8 if tier != "thorough" else 1]:
         for p in (1, 2):
             cc = dict(c)
